@@ -7,7 +7,7 @@
 //! This version uses cell_to_children for expansion and stride-based sibling detection
 //! for compaction.
 
-use std::collections::HashSet;
+use std::collections::{BTreeMap, HashSet};
 
 use crate::core::cell_info::get_num_children;
 use crate::core::serialization::{
@@ -80,76 +80,61 @@ pub fn compact(cells: &[u64]) -> Result<Vec<u64>, String> {
         return Ok(Vec::new());
     }
 
-    // Single sort and dedup
+    // Group the unique cells by resolution. Numeric ID order only follows the hierarchy
+    // among cells of the same resolution (base cell IDs interleave with the quintants of
+    // other faces), so sibling groups are detected one resolution at a time.
     let unique_cells: HashSet<u64> = cells.iter().copied().collect();
-    let mut current_cells: Vec<u64> = unique_cells.into_iter().collect();
-    current_cells.sort_unstable();
+    let mut levels: BTreeMap<i32, Vec<u64>> = BTreeMap::new();
+    for cell in unique_cells {
+        levels.entry(get_resolution(cell)).or_default().push(cell);
+    }
 
-    // Compact until no more changes
-    // No re-sorting needed - parents maintain sorted order!
-    let mut changed = true;
-    while changed {
-        changed = false;
-        let mut result = Vec::new();
+    // Compact from the finest resolution upwards, parents join the next coarser level
+    let mut current_cells = Vec::new();
+    let mut resolution = levels.keys().next_back().copied().unwrap_or(-1);
+    while resolution >= 0 {
+        let mut level = levels.remove(&resolution).unwrap_or_default();
+        level.sort_unstable();
+        level.dedup();
+
+        let expected_children = if resolution >= FIRST_HILBERT_RESOLUTION {
+            4 // Hilbert levels have 4 siblings
+        } else if resolution == 0 {
+            12 // First two levels are exceptions, with 12 & 5 siblings
+        } else {
+            5
+        };
+        let stride = get_stride(resolution);
+
         let mut i = 0;
+        while i < level.len() {
+            let cell = level[i];
+            let has_all_siblings = i + expected_children <= level.len()
+                && is_first_child(cell, Some(resolution))
+                && (1..expected_children).all(|j| level[i + j] == cell + (j as u64) * stride);
 
-        while i < current_cells.len() {
-            let cell = current_cells[i];
-            let resolution = get_resolution(cell);
-
-            // Can't compact below resolution 0
-            if resolution < 0 {
-                result.push(cell);
-                i += 1;
-                continue;
-            }
-
-            // Check for complete sibling group using unified stride-based approach
-            let expected_children = if resolution >= FIRST_HILBERT_RESOLUTION {
-                4 // Hilbert levels have 4 siblings
-            } else if resolution == 0 {
-                12 // First two levels are exceptions, with 12 & 5 siblings
+            if has_all_siblings {
+                levels
+                    .entry(resolution - 1)
+                    .or_default()
+                    .push(cell_to_parent(cell, None)?);
+                i += expected_children;
             } else {
-                5
-            };
-
-            if i + expected_children <= current_cells.len() {
-                let mut has_all_siblings = true;
-
-                // Use stride-based checking for all resolutions
-                // First check if this cell is a first child (at a sibling group boundary)
-                if is_first_child(cell, Some(resolution)) {
-                    let stride = get_stride(resolution);
-
-                    // Check that all expected siblings are present with correct stride
-                    for j in 1..expected_children {
-                        let expected_cell = cell + (j as u64) * stride;
-                        if current_cells[i + j] != expected_cell {
-                            has_all_siblings = false;
-                            break;
-                        }
-                    }
-                } else {
-                    // First cell is not at a sibling group boundary
-                    has_all_siblings = false;
-                }
-
-                if has_all_siblings {
-                    // Compute parent only once when needed
-                    let parent = cell_to_parent(cell, None)?;
-                    result.push(parent);
-                    i += expected_children;
-                    changed = true;
-                    continue;
-                }
+                current_cells.push(cell);
+                i += 1;
             }
-
-            result.push(cell);
-            i += 1;
         }
 
-        current_cells = result;
+        resolution -= 1;
     }
+
+    // Whatever is left below resolution 0 (the world cell) cannot be compacted further
+    for (_, mut level) in levels {
+        level.sort_unstable();
+        level.dedup();
+        current_cells.extend(level);
+    }
+    current_cells.sort_unstable();
 
     Ok(current_cells)
 }
